@@ -42,6 +42,9 @@ mkcorpus (void)
           else
             addcall (ep, 0, vh_cheap[m][0], vh_methods[m].name);
         }
+      if (vh_thorough)
+        for (int ep = 0; ep < 3; ep++)
+          addcall (ep, ep == 2 ? 1 : 0, vh_cheap[m][1], vh_methods[m].name);
       addcall (4, 0, vh_methods[m].tag, vh_methods[m].name);
       addcall (5, 0, vh_methods[m].tag, vh_methods[m].name);
       addcall (6, 0, vh_methods[m].tag, vh_methods[m].name);
@@ -86,6 +89,7 @@ setup_objects (const struct call *c)
     }
 }
 
+static long f3_global;
 static void
 run (const struct call *c, long f1, long f2, struct outcome *o)
 {
@@ -97,6 +101,7 @@ run (const struct call *c, long f1, long f2, struct outcome *o)
   vh_req_log[0] = 0;
   vh_fail_at[0] = f1;
   vh_fail_at[1] = f2;
+  vh_fail_at[2] = f1 && f2 ? f3_global : 0;
   vh_ent_counter = 77;
   errno = 0;
   vh_seam_armed = 1;
@@ -117,7 +122,7 @@ run (const struct call *c, long f1, long f2, struct outcome *o)
     }
   o->err = errno;
   vh_seam_armed = 0;
-  vh_fail_at[0] = vh_fail_at[1] = 0;
+  vh_fail_at[0] = vh_fail_at[1] = vh_fail_at[2] = 0;
   o->fatal = k;
   o->reqs = vh_req_count;
   snprintf (o->log, sizeof o->log, "%s", vh_req_log);
@@ -211,25 +216,29 @@ one_call (int ci)
     vh_stat ("distinct_nontrivial", 1);
   for (long f1 = 1; f1 <= K + 1; f1++)
     for (long f2 = 0; f2 <= K + 2; f2++)
+     for (long f3 = 0; f3 <= (vh_thorough && f2 ? K + 3 : 0); f3++)
       {
         if (f2 != 0 && f2 <= f1)
           continue;
+        if (f3 != 0 && f3 <= f2)
+          continue;
+        f3_global = f3;
         if (f1 == K + 1 && f2 == 0)
           continue;             /* beyond the last request: no fault happens */
         vh_ledger_reset ();
         setup_objects (c);
         run (c, f1, f2, &o);
         vh_stat ("evaluations", 1);
-        vh_stat (f2 ? "fault_pairs" : "single_faults", 1);
-        snprintf (cj, sizeof cj, "{\"entry\":\"%s\",\"method\":\"%s\",\"setting\":%s,\"ra_start\":%d,\"unfaulted_requests\":\"%s\",\"fail_positions\":[%ld,%ld],\"requests_seen\":\"%s\",\"replay\":\"%d\"",
-                  epn[c->ep], c->label, vh_jstr (c->setting), c->ra_start, ref.log, f1, f2, o.log, ci);
+        vh_stat (f3 ? "fault_triples" : f2 ? "fault_pairs" : "single_faults", 1);
+        snprintf (cj, sizeof cj, "{\"entry\":\"%s\",\"method\":\"%s\",\"setting\":%s,\"ra_start\":%d,\"unfaulted_requests\":\"%s\",\"fail_positions\":[%ld,%ld,%ld],\"requests_seen\":\"%s\",\"replay\":\"%d\"",
+                  epn[c->ep], c->label, vh_jstr (c->setting), c->ra_start, ref.log, f1, f2, f3, o.log, ci);
         int faulted = o.reqs >= f1;
         const char *why = 0;
         int maps = 0;
         int munmap_failed = 0;
         /* which requests did we fail: a failed munmap legitimately leaves its mapping */
         for (long q = 0; q < (long) strlen (o.log); q++)
-          if ((q + 1 == f1 || q + 1 == f2) && o.log[q] == 'U')
+          if ((q + 1 == f1 || q + 1 == f2 || q + 1 == f3) && o.log[q] == 'U')
             munmap_failed = 1;
         if (o.fatal)
           why = "crash";
